@@ -272,8 +272,10 @@ class SymEnv:
     def note(self, s):
         self.notes.append(s)
 
-    def fail(self, label, why=''):
-        self.obs.append(_Ob(label + (':' + why if why else ''), 'holds', False))
+    def fail(self, label, why='', hard=False):
+        # hard=True: decided under pre & path-condition ALONE (no "divisors occurring in the query are non-zero"
+        # hypothesis): for failures that are themselves about a divisor being zero on the path
+        self.obs.append(_Ob(label + (':' + why if why else ''), 'hard' if hard else 'holds', False))
 
 
 class ConcEnv:
@@ -374,7 +376,7 @@ class ConcEnv:
     def note(self, s):
         self.notes.append(s)
 
-    def fail(self, label, why=''):
+    def fail(self, label, why='', hard=False):
         self.checked += 1
         self.failed.append((label + (':' + why if why else ''), None, None))
 
@@ -467,6 +469,22 @@ def run_unit_symbolic(unit):
                 if forced is False:
                     stack.append(ex.decisions[:i] + [not taken])
             pc = [c if t else z3.Not(c) for c, t, _ in ex.trace]
+            # Vacuity guard for the "divisors occurring in the query are non-zero" hypothesis: unit-wide preconditions
+            # (axioms recorded on OTHER paths) may mention a divisor that this path forces to zero; with the hypothesis
+            # added, every obligation of this path would then hold vacuously.  Such preconditions are dropped for this
+            # path (dropping hypotheses is sound; the terms they talk about do not exist on this path).
+            path_pre = list(env.pre)
+            pd_ = {}
+            for d_ in S.collect_denominators(path_pre):
+                pd_[d_.get_id()] = d_
+            if pd_:
+                vv = S.check_sat(path_pre + pc + [d_ != 0 for d_ in pd_.values()], 5000)
+                res['feas_queries'] += 1
+                res['solver_s'] += vv.seconds
+                if vv.status == 'unsat':
+                    path_pre = [p_ for p_ in path_pre if not S.collect_denominators([p_])]
+                    res['paths_with_zero_divisor_preconditions_dropped'] = \
+                        res.get('paths_with_zero_divisor_preconditions_dropped', 0) + 1
             res['paths'] += 1
             res['feas_queries'] += ex.nqueries
             res['solver_s'] += ex.qtime
@@ -483,7 +501,7 @@ def run_unit_symbolic(unit):
                 res['obligations'] += 1
                 if time.time() > deadline:
                     raise S.ExplorationLimit('unit time cap (%ds) hit while discharging' % unit.timeout_s)
-                pre = list(env.pre) + list(ob.extra_pre)
+                pre = list(path_pre) + list(ob.extra_pre)
                 if ob.kind == 'eq':
                     a, b = Sym.lift(ob.a), Sym.lift(ob.b)
                     if ob.slack is not None:
@@ -508,6 +526,9 @@ def run_unit_symbolic(unit):
                             if v is None:
                                 v = S.prove_eq(a, b, pre, pc, denoms, unit.query_timeout_ms)
                         terms = [a.t, b.t]
+                elif ob.kind == 'hard':
+                    v = S.check_sat(list(pre) + list(pc), unit.query_timeout_ms)
+                    terms = [z3.BoolVal(False)]
                 else:
                     c = ob.a
                     if isinstance(c, SymBool):
@@ -538,7 +559,7 @@ def run_unit_symbolic(unit):
                                            values={k: (str(x) if x is not None else None) for k, x in vals.items()},
                                            lhs=str(z3.simplify(terms[0]))[:400],
                                            rhs=str(z3.simplify(terms[1]))[:400] if len(terms) > 1 else '',
-                                           reason=v.reason))
+                                           reason=v.reason, probe=(ob.kind == 'hard')))
                     if len(res['cex']) >= 5:
                         break
                 else:
@@ -703,14 +724,21 @@ def finish(prop, mod, tier, seed, units, results, wall):
     known_hits = []
     inconclusive = []
     stretch_inconclusive = []
+    probes_clean = []
+    nprobes = [0]
     for r in results:
         if r['error']:
             (stretch_inconclusive if r['stretch'] else inconclusive).append('%s: %s' % (r['unit'], r['error']))
         for uk in r['unknown']:
             (stretch_inconclusive if r['stretch'] else inconclusive).append(
                 '%s: %s: solver unknown (%s)' % (r['unit'], uk['label'], uk['reason']))
-        for ci, cex in enumerate(r['cex']):
-            if ci >= 2 or len(violations) + len(known_hits) >= 12:
+        ordered = [c_ for c_ in r['cex'] if not c_.get('probe')] + [c_ for c_ in r['cex'] if c_.get('probe')]
+        for ci, cex in enumerate(ordered):
+            if cex.get('probe'):
+                if nprobes[0] >= 8 or sum(1 for c_ in ordered[:ci] if c_.get('probe')) >= 1:
+                    continue  # float probes: one per unit, eight per run; they never use up the counterexample budget
+                nprobes[0] += 1
+            elif ci >= 2 or len(violations) + len(known_hits) >= 12:
                 continue  # replay at most two counterexamples per unit / a dozen per run (they are sequential)
             cex['tier'] = tier
             cex['seed'] = seed
@@ -735,6 +763,10 @@ def finish(prop, mod, tier, seed, units, results, wall):
                     known_hits.append((kf[0], cex, path))
                 else:
                     violations.append((cex, path))
+            elif cex.get('probe'):
+                # a float-semantics probe (env.fail(..., hard=True), e.g. "a divisor is zero on this path"): whether the
+                # float code actually fails there is decided by this replay alone; no failure = nothing to report
+                probes_clean.append('%s: %s' % (r['unit'], cex['label']))
             else:
                 inconclusive.append('%s: %s: counterexample did not reproduce on the real code (encoding error?) see %s'
                                     % (r['unit'], cex['label'], path))
@@ -769,6 +801,7 @@ def finish(prop, mod, tier, seed, units, results, wall):
             unknown=sum(len(r['unknown']) for r in results),
             inconclusive=inconclusive[:20], stretch_inconclusive=stretch_inconclusive[:20],
             known_findings=[k['text'] for k, _, _ in known_hits],
+            float_probes_replayed_without_failure=probes_clean[:20],
             evaluations=max(1, tot('obligations')),
             distinct_nontrivial=tot('distinct'),
             rule='one evaluation = one obligation (pre ∧ path ∧ ¬claim) decided by z3; distinct_nontrivial counts '
